@@ -24,6 +24,7 @@ Variable st0 : state.
 Hypothesis start13 : inv13 junk st0.
 Hypothesis start10 : inv10 capdb bad merge st0.
 Hypothesis startF : files_ok (indexes st0).
+Hypothesis startQ : caps_prefix st0.
 
 Let run (rf : bool) (acts : list action) : state := fold_left (step capdb bad rf merge) acts st0.
 Let I10 (rf : bool) (acts : list action) := run_inv10_st0 capdb bad merge merge_lookup merge_sub junk st0 start13 start10 rf acts.
@@ -73,6 +74,28 @@ Theorem C10_view_is_complete_and_stable_snapshot : forall acts1 acts2 v,
   (forall f, In f (indexes st1) -> In (f_uid f) (disk st2)).
 Proof. intros acts1 acts2 v. exact (view_snapshot capdb bad merge junk st0 start13 acts1 acts2 v). Qed.
 
+(* "Reported processed": the completion of an import job reports (pcap-processed event / webhook; model field `processed`)
+   exactly the captures it takes off the front of the import queue -- never a capture that is still queued. Together
+   with the first theorem: everything reported processed is in the service list from that closure on. *)
+Theorem C10_import_reports_exactly_what_leaves_the_queue : forall rf acts j,
+  let st := run rf acts in
+  ijob st = Some j -> ij_phase j = AtDone ->
+  let st' := step capdb bad rf merge st (AComplete KImport) in
+  exists reported, processed st' = processed st ++ reported /\ queue st = reported ++ queue st'.
+Proof.
+  intros rf acts j.
+  exact (report_names_queue_front capdb bad merge merge_lookup merge_sub junk st0 start13 start10 startQ rf acts j).
+Qed.
+
+(* The view's own copy of the tag details (ghost field vtags: stamp of the manager's tag table copied at fetch, flag "lazily
+   evaluated"): nothing but the view's own Release removes it, nothing changes its stamp -- not tag changes, not the
+   environment, not OTHER views evaluating tags lazily (PrefetchTags) -- and only the view's own prefetch sets its flag. *)
+Theorem C10_view_tag_copy_is_private : forall acts st v stamp b,
+  vtag_of v (vtags st) = Some (stamp, b) -> (forall a, In a acts -> a <> ARelease v) ->
+  exists b', vtag_of v (vtags (fold_left (step capdb bad false merge) acts st)) = Some (stamp, b') /\
+             ((forall a, In a acts -> a <> APrefetch v) -> b' = b).
+Proof. intros acts st v stamp b. exact (vtag_run_stable capdb bad merge false acts st v stamp b eq_refl). Qed.
+
 (* The property in one statement: whatever happens between opening a view and releasing it, AllStreams
    through the view returns every stream of every capture processed before it was opened, exactly once, in the
    version those captures give it -- and the files it reads are still there. *)
@@ -105,11 +128,15 @@ Proof. exact (conj merge_ents_lookup (conj merge_ents_sub merge_ents_nodup)). Qe
    whose loadable files fs (in name order) hold exactly the newest versions of the captures P (what restart/crash
    recovery must guarantee is property C12), with distinct file names, unloadable files junk left in place. *)
 Theorem C10_start_states_are_valid : forall capdb bad merge,
-  (inv13 [] init /\ inv10 capdb bad merge init /\ files_ok (indexes init)) /\
+  ((inv13 [] init /\ inv10 capdb bad merge init /\ files_ok (indexes init)) /\ caps_prefix init) /\
   (forall fs junk P, NoDup (map f_uid fs ++ junk) -> spec_ok capdb P fs -> ids_ok fs -> files_ok fs ->
-     inv13 junk (init_from capdb fs junk P) /\ inv10 capdb bad merge (init_from capdb fs junk P) /\
-     files_ok (indexes (init_from capdb fs junk P))).
-Proof. intros. exact (conj (start_init capdb bad merge) (start_from capdb bad merge)). Qed.
+     (inv13 junk (init_from capdb fs junk P) /\ inv10 capdb bad merge (init_from capdb fs junk P) /\
+      files_ok (indexes (init_from capdb fs junk P))) /\ caps_prefix (init_from capdb fs junk P)).
+Proof.
+  intros. split.
+  - split; [exact (start_init capdb bad merge)|]. intros j H. discriminate.
+  - intros fs junk P H1 H2 H3 H4. split; [exact (start_from capdb bad merge fs junk P H1 H2 H3 H4)|]. intros j H. discriminate.
+Qed.
 
 (* Closed corollary for the instance that is extracted and run against the Go code. *)
 Theorem C10_extracted_model_service_list_complete : forall capdb bad acts,
